@@ -1,6 +1,7 @@
 import Genshi.Wire
 import Genshi.WireCore
 import Genshi.Model.OutputPipeline
+import Genshi.Model.OutputMarkupAttr
 namespace Driver.C09
 open Genshi Genshi.Output Genshi.Sexp
 
@@ -23,7 +24,38 @@ def okStream (m : Method) (cfg : Cfg) (s : Stream) : Bool :=
   | some fs => fs.all feOk
   | none => false
 
+/-- an event as it reaches the main loop on the namespace-free domain: names are local names -/
+def locEv : Event → FEv
+  | .start t a => .start t.loc (a.map fun p => (p.1.loc, p.2))
+  | .end_ t => .end_ t.loc
+  | .text s f => .text s f
+  | .comment s => .comment s
+  | .pi t d => .pi t d
+  | .doctype n p s => .doctype n p s
+  | .xmlDecl v e s => .xmlDecl v e s
+  | .startNs p u => .startNs p u
+  | .endNs p => .endNs p
+  | .startCdata => .startCdata
+  | .endCdata => .endCdata
+
+/-- `( TAG empty name ( ( attr value markup ) … ) )` or a wire event -/
+def tev? : Sexp → Option TEv
+  | .list [.atom "TAG", ie, .str t, .list as] => do
+      let ie ← ie.toBool?
+      let a ← as.mapM fun
+        | .list [.str n, .str v, f] => do let f ← f.toBool?; pure (n, v, f)
+        | _ => none
+      pure (.tag ie t a)
+  | x => (Event.ofSexp? x).map fun e => .ev (locEv e)
+
 def handle : List Sexp → Option Sexp
+  -- loopm <method> <cache> <drop_xml_decl> ( item … ): the repaired main loop on typed events
+  | [.atom "loopm", m, cache, dropd, .list items] => do
+      let m ← method? m
+      let cache ← cache.toBool?; let dropd ← dropd.toBool?
+      let evs ← items.mapM tev?
+      if !(evs.all fun e => feOk e.key) then pure (.atom "unmodelled") else
+      pure (.list [.atom "ok", .str (loopT m ⟨dropd⟩ cache {} evs).flatten])
   -- render <method> <strip> <cache> <drop_xml_decl> <doctype> <stream>
   | [.atom "render", m, strip, cache, dropd, dt, s] => do
       let m ← method? m
